@@ -256,10 +256,11 @@ func HTMLAssets(item *models.Item) (assets []*models.URL, err error) {
 				matchReplacement = strings.Replace(matchReplacement, "'", "", -1)
 				matchReplacement = strings.Replace(matchReplacement, "\"", "", -1)
 
-				// If the URL already has http (or https), we don't need add anything to it.
-				if !strings.Contains(matchReplacement, "http") {
-					matchReplacement = strings.Replace(matchReplacement, "//", "http://", -1)
-				}
+				// url( "..." ) may have whitespace around the reference
+				matchReplacement = strings.TrimSpace(matchReplacement)
+
+				// Scheme-relative references (//host/path) are left as they are: they get
+				// resolved against the page URL (and its scheme) like any other relative reference.
 
 				if strings.HasPrefix(matchReplacement, "#wp-") {
 					continue
